@@ -47,6 +47,17 @@ pub fn oracle(s: &ProgScene<X>, t: &Trace) -> Vec<Violation> {
     let mut out = vec![];
     let mbn = s.spawn.mailbox.name();
     let op_at = |c: u8, i: u16| s.clients.get(c as usize).and_then(|cs| cs.ops.get(i as usize));
+    // halt / await / join / consume report the end as a value (Ok, an error, None) - never as a
+    // panic in the task that asked
+    for o in &an.ops {
+        if o.res == Some(Res::Panicked) && op_at(o.c, o.i).is_some_and(|op| matches!(op, Op::Halt(_) | Op::Await(_) | Op::AwaitRef(_) | Op::Join(_) | Op::Consume(_))) {
+            out.push(Violation {
+                clause: "verdict-matches-termination",
+                key: format!("C04/verdict-is-a-panic/mailbox={mbn}"),
+                detail: format!("client {} op {} {:?} panicked instead of reporting how the actor ended", o.c, o.i, op_at(o.c, o.i)),
+            });
+        }
+    }
     // first stop request issued, first accepted stop request returned
     // a stop request is issued when the client operation that carries it begins - except for
     // Context::stop, which is issued at the moment the handler calls it (the command message
@@ -233,13 +244,25 @@ pub fn make_case(subs: &[Vec<L>], stops: &[StopVia], aw: Awaiter, mailbox: Mailb
         }
     }
     let mut role = RoleCfg { stopped_yields: 1, ..RoleCfg::default() };
+    let tight = TIGHT.with(|t| t.get());
+    let mut spawn = SpawnCfg::plain(mailbox);
+    if let Some(fail) = tight {
+        // a handler timeout of 2 ticks is configured and stopped() takes 5: the limit is about
+        // handlers, the hook still runs to its end before anything is announced
+        spawn.timeout = Some((2, fail));
+        role.stopped_sleep = 5;
+    }
     if failing {
         // the first submitted message makes the handler panic
         role.work.push((msg_id(0, 0), Work { panic: true, ..Work::default() }));
     }
     let desc = format!(
-        "stop{} mailbox={} failing={} subs={} stops={:?} awaiter={:?}",
+        "stop{}{} mailbox={} failing={} subs={} stops={:?} awaiter={:?}",
         crate::progscene::variant_tag(),
+        match tight {
+            Some(fail) => format!(" [timeout 2 fail={fail}, stopped() takes 5]"),
+            None => String::new(),
+        },
         mailbox.name(),
         failing,
         subs.iter().map(|p| p.iter().map(|l| format!("{l:?}")).collect::<Vec<_>>().join(",")).collect::<Vec<_>>().join(" | "),
@@ -248,10 +271,23 @@ pub fn make_case(subs: &[Vec<L>], stops: &[StopVia], aw: Awaiter, mailbox: Mailb
     );
     Case {
         desc,
-        exec: ExecCfg::default(),
+        // (handlers are instant, so the timeout's select! never has both arms ready)
+        exec: if tight.is_some() { ExecCfg { horizon: 20, select_choice: false, ..ExecCfg::default() } } else { ExecCfg::default() },
         bound,
-        scene: Box::new(ProgScene { variant: crate::progscene::current_variant(), attach: crate::progscene::attach_for(mailbox), spawn: SpawnCfg::plain(mailbox), roles: vec![role], clients, extra: X { failing }, oracle }),
+        scene: Box::new(ProgScene { variant: crate::progscene::current_variant(), attach: crate::progscene::attach_for(mailbox), spawn, roles: vec![role], clients, extra: X { failing }, oracle }),
     }
+}
+
+thread_local! {
+    /// Some(fail_on_timeout): a tight handler timeout and a slow stopped() hook (see make_case)
+    static TIGHT: std::cell::Cell<Option<bool>> = const { std::cell::Cell::new(None) };
+}
+
+fn with_tight<T>(fail: bool, f: impl FnOnce() -> T) -> T {
+    TIGHT.with(|t| t.set(Some(fail)));
+    let r = f();
+    TIGHT.with(|t| t.set(None));
+    r
 }
 
 fn plain_cases(tier: Tier) -> Vec<Case> {
@@ -331,6 +367,13 @@ fn cases(tier: Tier) -> Vec<Case> {
     }));
     // ... and (every fourth case; thorough: every second) once more under a configuration that must
     // not matter: a handler timeout nothing comes near, and the recreate strategy
+    // ... and with a handler timeout shorter than the stopped() hook (every sixth case; thorough:
+    // every second), carrying on or failing on a timeout - no handler ever times out
+    for fail in [false, true] {
+        let step = if tier == Tier::Thorough { 2 } else { 6 };
+        let off = usize::from(fail);
+        v.extend(with_tight(fail, || plain_cases(tier)).into_iter().enumerate().filter(|(i, _)| i % step == off).map(|(_, c)| c));
+    }
     let nv = crate::progscene::Variant { generous_timeout: true, recreate: true, builder_order: 0 };
     let n = crate::progscene::with_variant(nv, || plain_cases(tier));
     let step = if tier == Tier::Thorough { 2 } else { 4 };
